@@ -156,7 +156,9 @@ func runHistory(p program, hist []req, classify bool) string {
 				func() {
 					defer func() { _ = recover() }()
 					h := func(c *rux.Context) { c.WriteString("[late route " + path + "]") }
-					switch i % 5 { // through any of the equivalent registration calls
+					switch i % 6 { // through any of the equivalent registration calls
+				case 5:
+					r.Any(path, h) // (all methods; both routers alike)
 					case 0:
 						r.GET(path, h)
 					case 1:
